@@ -16,7 +16,7 @@ RULE = ("structures with both directions: standard INQUIRY, VPD 80h/83h/86h/B2h/
         "STATUS, TransportIDs. (a) canonical bytes b from the independent encoders: marshall(unmarshall(b)) == b; (b) unmarshall(marshall(d)) "
         "contains d for d = unmarshall(b); (c) for every field f of every fixed-layout structure and mode page and every alphabet value v: "
         "parse b, set f=v, rebuild, result == deposit(b, f, v) (only f's bits change), from the all-zero and the all-ones baseline. Values: every "
-        "field over its alphabet, k deviations (k=1 quick, 2 thorough); lists with 0..3 entries; every rebuild also from the parsed object itself (twice) and with all dictionaries in the opposite key order; mode data with 8/16 (LONGLBA=1: 16/32) bytes of block descriptors in front of the page: read, change one field, write back, page part compared. Non-trivial = any non-zero field or entry.")
+        "field over its alphabet, k deviations (k=1 quick, 2 thorough); lists with 0..3 entries; every rebuild also from the parsed object itself (twice) and with all dictionaries in the opposite key order; mode data with 8/16 (LONGLBA=1: 16/32) bytes of block descriptors in front of the page: read, change one field, write back, page part compared; tools/swp.py as shipped (--on / --off / show) against a simulated disk on both transports for every Control-page field over its alphabet, with and without a block descriptor: the list written back is the device's page with only SWP changed. Non-trivial = any non-zero field or entry.")
 ASSUMPTIONS = [
     "canonical = what a device returns when the library's vocabulary can express all of it: 96-byte standard INQUIRY data, mode data without block descriptors (DBD=1) and one page, reserved and vendor bytes zero, minimal NUL padding of iSCSI names",
     "oracle: vf/spec/responses.py encoders and vf/spec/bits.py deposit; field positions as in DESIGN.md Appendix B",
@@ -246,13 +246,94 @@ def run_case(case, obs=None):
     raise ValueError(kind)
 
 
+def run_tool_swp(case):
+    """tools/swp.py as shipped, run against a simulated disk: read the Control mode page, set / clear SWP, write it back.
+    The list that reaches the device must be the page it sent with only the SWP bit changed."""
+    import contextlib
+    import io
+    import os
+    import runpy
+    import sys
+
+    from vf import harness
+    from vf.sim import install, registry
+    from vf.spec import paramlists as P
+    _, tr, flag, vals, bdlen = case
+    install.ensure()
+    fields, _ = R.MODE_PAGES[(0x0A, None)]
+    page = R.mode_page(0x0A, None, vals)
+    answer = R.mode_data(False, {"medium_type": 0, "device_specific_parameter": 0x10}, bytes(range(1, 1 + bdlen)), [page])
+    rig = harness.Rig(tr, 0x00)
+    seen = []
+    orig = rig.target.command
+
+    def command(cdb, dataout, datain, transport):
+        if cdb[0] == 0x1A:
+            rig.target.log.append({"cdb": bytes(cdb)})
+            n = min(len(answer), len(datain))
+            datain[:n] = answer[:n]
+            rig.target.log[-1]["transferred"] = n
+            return 0x00, None
+        if cdb[0] == 0x15:
+            seen.append((bytes(cdb), bytes(dataout)))
+            rig.target.log.append({"cdb": bytes(cdb)})
+            return 0x00, None
+        return orig(cdb, dataout, datain, transport)
+    rig.target.command = command
+    path = rig.node.path if tr == "sgio" else "iscsi://portal:3260/%s/0" % rig.key[1]
+    script = os.path.join(os.environ.get("VF_REPO", "/repo"), "tools", "swp.py")
+    argv0 = sys.argv[:]
+    registry.privileged = True        # (the tool opens the node read-only and is meant to be run by root)
+    out = []
+    sink = io.StringIO()
+    try:
+        sys.argv = [script] + ([flag] if flag else []) + [path]
+        with contextlib.redirect_stdout(sink):
+            runpy.run_path(script, run_name="__main__")
+    except SystemExit:
+        pass
+    except Exception as e:   # noqa: BLE001
+        out.append(("tool_swp/raises", "tools/swp.py %s over %s raised %s: %s" % (flag, tr, type(e).__name__, e)))
+    finally:
+        sys.argv = argv0
+        registry.privileged = False
+        rig.close()
+    where = "tools/swp.py %s over %s, device page %s, %d bytes of block descriptors" % (flag or "(show)", tr, page.hex(), bdlen)
+    if out:
+        return out
+    text = sink.getvalue()
+    swp0 = vals.get("swp", 0)
+    if not flag:
+        if ("ON" in text) != bool(swp0) or seen:
+            out.append(("tool_swp/show", "%s: printed %r, the device has SWP=%d (%d lists written)" % (where, text.strip(), swp0, len(seen))))
+        return out
+    if len(seen) != 1:
+        out.append(("tool_swp/writes", "%s: %d MODE SELECT commands reached the device" % (where, len(seen))))
+        return out
+    cdb, lst = seen[0]
+    h, pgs, problems = P.mode_list(lst, False)
+    for pr in problems:
+        out.append(("tool_swp/list", "%s: %s (list %s)" % (where, pr, lst.hex())))
+    want = dict(vals, swp=1 if flag == "--on" else 0)
+    if len(pgs) != 1:
+        out.append(("tool_swp/pages", "%s: %d pages written" % (where, len(pgs))))
+    else:
+        for (f, _, _, _) in fields:
+            if pgs[0].get(f) != want.get(f, 0):
+                out.append(("tool_swp/field/%s" % f, "%s: the list written back carries %s=%r, expected %r (only SWP may change)" % (where, f, pgs[0].get(f), want.get(f, 0))))
+    if cdb[4] != len(lst):
+        out.append(("tool_swp/pll", "%s: PARAMETER LIST LENGTH %d, list of %d bytes" % (where, cdb[4], len(lst))))
+    return out
+
+
 def replay(case):
-    return run_case(c04._unjson(case))
+    case = c04._unjson(case)
+    return run_tool_swp(case) if case[0] == "tool_swp" else run_case(case)
 
 
 def partitions(tier):
     return [[n, c] for n in ("inquiry_std", "vpd86", "vpdb2", "vpdb3", "readcap", "mode6", "mode10", "vpd_lists", "vpd83", "getlbastatus", "reportluns", "rtpg",
-                          "reportpriority", "res", "tid") for c in range(NCHUNK)]
+                          "reportpriority", "res", "tid") for c in range(NCHUNK)] + [["tool_swp", 0]]
 
 
 def gen(part, tier):
@@ -325,6 +406,23 @@ NCHUNK = 3
 
 def run_partition(part, tier, seed):
     acc = Acc(seed)
+    if part[0] == "tool_swp":
+        fields, _ = R.MODE_PAGES[(0x0A, None)]
+        for tr in ("sgio", "iscsi"):
+            for vals in c04.field_points(fields, 1):
+                for flag in ("--on", "--off", ""):
+                    for bdlen in (0, 8):
+                        case = ["tool_swp", tr, flag, vals, bdlen]
+                        acc.case(case, nontrivial=True, key=repr(case))
+                        try:
+                            v = run_tool_swp(case)
+                        except Exception:
+                            import traceback
+                            v = [("harness_error", traceback.format_exc()[-600:])]
+                        for k, w in v:
+                            acc.violation(k, w, case)
+                        acc.outcome((repr(case), tuple(k for k, _ in v)))
+        return acc
     chunk = part[1]
     anchor = None
     for n, case in enumerate(gen(part[:1], tier)):
